@@ -110,7 +110,7 @@ Definition eff (fi : finfo) (i : instr) : option (list dop * ctl) :=
   | IPushStackmark m => Some ([DPush (Mark m)], CNext)
   | IPopUntilStackmark m => Some ([DPopToMark m; DPush (Mark m)], CNext)
   | IClearStackmark m => Some ([DPopToMark m], CNext)
-  | IAssign => Some ([DPop; DPop], CNext)
+  | IAssign => Some ([DPop; DPop; DPush Val], CNext)   (* pops rhs and lhs, pushes the assigned value *)
   | IPopScopeTransfer => Some ([DScopeDown; DPush Val], CNext)
   | IPrepareCall n =>
       if f_varargs fi then
